@@ -4,7 +4,7 @@
 cd /verif
 PROPS=$(python3 -c "import json;print(' '.join(c['property_id'] for c in json.load(open('MANIFEST.json'))['checks']))" 2>/dev/null)
 [ -n "$SEEDTEST_PROPS" ] && PROPS="$SEEDTEST_PROPS"
-SEEDS="$@"; [ -z "$SEEDS" ] && SEEDS=$(ls seeded)
+SEEDS="$@"; [ -z "$SEEDS" ] && SEEDS=$(cd seeded && ls -d */ | tr -d /)
 one() {
   s=$1
   W=$(mktemp -d /tmp/seedrun.XXXXXX)
